@@ -240,8 +240,12 @@ def parse_struct(path):
     if ctor != [f for f, _, _ in fields]:
         err("%s: constructor lists %s, struct has %s" % (name, ctor, [f for f, _, _ in fields]))
     structs[name] = fields
+    base = os.path.basename(path)
+    rust_path[name] = ("opcua::types::%s::%s" % (base[:-3], name)) if base in ("request_header.rs", "response_header.rs") \
+        else "opcua::types::service_types::%s" % name
 
 
+rust_path = {}
 for f in files:
     parse_struct(f)
 
@@ -326,9 +330,9 @@ rs.append("")
 rs.append("pub fn desc(idx: usize) -> D { match idx { %s _ => D::Struct(vec![]) } }" %
           " ".join("%d => desc_%s()," % (i, n) for i, n in enumerate(order)))
 rs.append("pub fn roundtrip(idx: usize, o: &HOpts, bs: &[u8]) -> Vec<i128> { match idx { %s _ => vec![] } }" %
-          " ".join("%d => rt::<%s>(o, bs)," % (i, n) for i, n in enumerate(order)))
+          " ".join("%d => rt::<%s>(o, bs)," % (i, rust_path[n]) for i, n in enumerate(order)))
 rs.append("pub fn observe(idx: usize, ro: &opcua::types::DecodingOptions, s: &mut dyn std::io::Read) -> bool { match idx { %s _ => false } }" %
-          " ".join("%d => obs::<%s>(ro, s)," % (i, n) for i, n in enumerate(order)))
+          " ".join("%d => obs::<%s>(ro, s)," % (i, rust_path[n]) for i, n in enumerate(order)))
 rs.append("")
 
 if errors:
